@@ -145,7 +145,9 @@ func c12(c *ctx) {
 		rule: "R2", fn: setPaused, events: evSet{"SetValidator": {setValidator}},
 		extraEv: firstOf(markerEv("$2"), storeFieldEvent("MaxPausedHeight=", pausedF)),
 		target:  tgtOkReturn("ok-return"),
-		reqs:    func(string) []string { return []string{"SetPausedMarker.ok", "seen:MaxPausedHeight=", "seen:SetValidator"} }, minTarget: 1,
+		reqs: func(string) []string {
+			return []string{"SetPausedMarker.ok", "seen:MaxPausedHeight=", "seen:SetValidator"}
+		}, minTarget: 1,
 	})
 	for _, cs := range callsIn(setPaused, false, smSet) {
 		k := c.p.path(argOf(cs, 0))
